@@ -32,6 +32,8 @@ type Step struct {
 	// burst: the same goroutine calls Close right after its adds (only owned when every parked consumer drains
 	// after close - PopAnyway or the sync queue; otherwise the close is issued as a step of its own)
 	ThenClose bool `json:"then_close,omitempty"`
+	// close: go through TryClose (mq only), which closes exactly when both lanes are empty and is otherwise a no-op
+	Try bool `json:"try,omitempty"`
 }
 
 type CaseCtl struct {
@@ -75,7 +77,7 @@ func GenCtl(t *rapid.T) CaseCtl {
 				c.Steps = append(c.Steps, Step{Op: "consume", Anyway: rapid.Bool().Draw(t, "anyway")})
 			}
 		default:
-			c.Steps = append(c.Steps, Step{Op: "close"})
+			c.Steps = append(c.Steps, Step{Op: "close", Try: c.Kind == qadapt.KindMQ && rapid.Bool().Draw(t, "tryclose")})
 		}
 	}
 	return c
@@ -153,6 +155,7 @@ func ExecCtl(c CaseCtl) *vkit.Result {
 	}()
 	maxParked := 0
 	firstEvent := true
+	tryCloseMismatch := ""
 	for i, st := range c.Steps {
 		var expect []ret
 		var mut *vkit.Op
@@ -344,17 +347,33 @@ func ExecCtl(c CaseCtl) *vkit.Result {
 				res.NonTrivial = true
 			}
 			firstEvent = false
-			if !m.closed {
+			try := st.Try && q.TryClose != nil
+			if try {
+				res.Class("tryclose")
+			}
+			if !m.closed && (!try || m.empty()) {
 				m.closed = true
 				if m.waiting > 0 {
 					res.Class(fmt.Sprintf("close-with-%d-parked", min(m.waiting, 3)))
+					if try {
+						res.Class("tryclose-with-parked")
+					}
 				}
 				for ; m.waiting > 0; m.waiting-- {
 					expect = append(expect, ret{closed: true})
 				}
 				m.waitingPop = 0
 			}
-			mut = sched.Go("close", q.Close)
+			if try {
+				wantClosed := m.closed
+				mut = sched.Go("tryclose", func() {
+					if got := q.TryClose(); got != wantClosed {
+						tryCloseMismatch = fmt.Sprintf("TryClose returned %v, want %v", got, wantClosed)
+					}
+				})
+			} else {
+				mut = sched.Go("close", q.Close)
+			}
 		default:
 			res.Skip("unknown-op")
 			continue
@@ -370,6 +389,9 @@ func ExecCtl(c CaseCtl) *vkit.Result {
 			}
 			if st.Op != "close" && outcome != wantOutcome {
 				return res.Failf("add-outcome", "%s: outcome %v, want %v", what, outcome, wantOutcome)
+			}
+			if tryCloseMismatch != "" {
+				return res.Failf("tryclose-result", "%s: %s", what, tryCloseMismatch)
 			}
 		}
 		var got []ret
